@@ -33,6 +33,7 @@ pub struct Abs {
     pub nsel: u8,
     pub nraw: u16,
     pub chunking: AbsChunking,
+    pub zeros: u8,
 }
 
 pub struct C05;
@@ -72,8 +73,9 @@ pub fn abs_strategy(max_ops: usize, max_run: u16, max_out: usize) -> BoxedStrate
         any::<u8>(),
         any::<u16>(),
         abs_chunking(),
+        prop_oneof![14 => Just(0u8), 1 => 1u8..40],
     )
-        .prop_map(|(file, random, muts, continuation, osel, nsel, nraw, chunking)| Abs {
+        .prop_map(|(file, random, muts, continuation, osel, nsel, nraw, chunking, zeros)| Abs {
             file,
             random,
             muts,
@@ -82,6 +84,7 @@ pub fn abs_strategy(max_ops: usize, max_run: u16, max_out: usize) -> BoxedStrate
             nsel,
             nraw,
             chunking,
+            zeros,
         })
         .boxed()
 }
@@ -102,6 +105,12 @@ pub fn concretize_abs(a: &Abs) -> Case {
         first_mut = first_mut.min(input.len());
         input.extend_from_slice(&g.bytes[g.header_len..]);
         kind.push_str("+continuation");
+    } else if a.zeros > 0 {
+        // zero bytes after the stream: after an end marker they decode as more
+        // symbols (code stays 0) if the decoder does not stop at the marker
+        first_mut = first_mut.min(input.len());
+        input.extend(std::iter::repeat(0u8).take(a.zeros as usize));
+        kind.push_str("+zeros");
     }
     let opts = choose_opts(a.osel, a.nsel, a.nraw, a.file.h13, f.output.len() as u64);
     let pieces = concretize_chunking(&a.chunking, input.len(), f.header_len, &f.sym_ends);
